@@ -140,7 +140,7 @@ Definition scheduler_interpret (pf : string -> pfres) (p : gpod) : greq :=
                g_portion := if snd g0 then one_bits else zero_bits; g_memory := 0 |} in
   (* gpu-memory *)
   let mem := parse_int (oget (a_memory p)) in
-  let memv := match mem with Some n => n | None => 0 end in
+  let memv := parse_int_raw (oget (a_memory p)) in
   let r1 := match mem with
             | Some n => if 0 <? n
                         then {| g_type := GpuMemory; g_count := 1; g_portion := zero_bits; g_memory := n |}
